@@ -343,6 +343,11 @@ def explore_program(res: Result, M, files, pi: int, rate, fake: FakeRandom) -> N
         # either the seam is lost or the tracer stopped drawing: in both cases every call was traced although 1/N was asked for
         res.violate(Violation(ID, "frequency", "no-draw-at-all", {"program": name, "pi": pi, "rate": rate, "answers": []}, f"{name} rate={rate}: the sampling RNG was never consulted and {len(col.traces)} of {nframes} calls were traced"))
         return
+    if rate and rate >= 2 and ndraw > len(rec.events):
+        # sampling decides once per call: more draws than the interpreter reported frame activations means decisions are
+        # drawn ahead of (or apart from) the calls they are for - nothing to enumerate then, the draws are not per call
+        res.violate(Violation(ID, "frequency", "draws-not-per-call", {"program": name, "pi": pi, "rate": rate, "answers": list(answers)}, f"{name} rate={rate}: {ndraw} sampling draws for {len(rec.events)} frame activations ({nframes} calls): decisions are not drawn per call"))
+        return
     if rate and rate >= 2 and ndraw < nframes and plain:
         res.violate(Violation(ID, "frequency", "fewer-draws-than-calls", {"program": name, "pi": pi, "rate": rate, "answers": list(answers)}, f"{name} rate={rate}: {nframes} fresh calls but only {ndraw} sampling draws (some calls bypass sampling)"))
     if (not rate or rate == 1) and ndraw and rate is None:
